@@ -72,15 +72,16 @@ type vfWorld struct {
 	reps  []*vfReplica
 	sched *vfSched
 
-	tmpdir    string
-	requests  int
-	truncated bool
-	cleanup   []func()
-	known     map[string]bool // oracle|key pairs that are known findings: recorded, not fatal
-	knownHits map[string]int
-	watch     *vfWatcher
-	variant   string
-	panicProp string // property a handler panic is attributed to in this run (default C19; C13/C14 under store/IdP faults)
+	tmpdir     string
+	requests   int
+	truncated  bool
+	cleanup    []func()
+	known      map[string]bool // oracle|key pairs that are known findings: recorded, not fatal
+	knownHits  map[string]int
+	watch      *vfWatcher
+	variant    string
+	cryptoSeed uint64
+	panicProp  string // property a handler panic is attributed to in this run (default C19; C13/C14 under store/IdP faults)
 }
 
 func vfNewWorld(t *testing.T, prop, tier string, tape *vfTape) *vfWorld {
@@ -341,8 +342,13 @@ func vfBuildOptions(cfg *vfCfg) (*options.Options, error) {
 		logger.SetErrOutput(io.Discard)
 		return nil, err
 	}
-	logger.SetOutput(io.Discard)
-	logger.SetErrOutput(io.Discard)
+	if os.Getenv("VERIF_LOG") == "" {
+		logger.SetOutput(io.Discard)
+		logger.SetErrOutput(io.Discard)
+	} else {
+		logger.SetOutput(os.Stderr)
+		logger.SetErrOutput(os.Stderr)
+	}
 	if cfg.Store == "redis" {
 		opts.Session.Type = options.RedisSessionStoreType
 	}
